@@ -691,6 +691,26 @@ func (fr *Frame) specCall(c *ECall, env *SpecEnv) Val {
 		}
 		v := argv(0)
 		return Val{S: fr.bv(st, fr.ptrTerm(v)), Typ: tInt}
+	case "xmltext":
+		// the text delivered by the last XML decoding into a single-string destination (ghost set by the model of
+		// encoding/xml); unconstrained if no such decoding happened
+		fc.regVar("$xmltext", "Int")
+		return Val{S: fc.get(st, "$xmltext"), Typ: types.Typ[types.String]}
+	case "strnum", "strnumok":
+		// the number denoted by a string in the given base, and whether the string is such a numeral (the
+		// uninterpreted functions behind big.Int.SetString)
+		if !need(2) {
+			break
+		}
+		if !fc.declSet["fun:strnum"] {
+			fc.declSet["fun:strnum"] = true
+			fc.decls = append(fc.decls, "(declare-fun strnum (Int Int) Int)")
+			fc.decls = append(fc.decls, "(declare-fun strnumok (Int Int) Bool)")
+		}
+		if c.Fn == "strnumok" {
+			return Val{S: sApp("strnumok", arg(0), arg(1)), Typ: tBool}
+		}
+		return Val{S: sApp("strnum", arg(0), arg(1)), Typ: tInt}
 	case "deref":
 		// deref(p): the value a pointer to a scalar (boxed) value points to
 		if !need(1) {
